@@ -615,6 +615,45 @@ func runC11(c *Ctx) {
 						return true
 					}
 				}
+				// the reverse index rebuilt as the inverse of the forward one (or the other way round): every (k, v) of the
+				// receiver's OTHER map stored as m[v] = k - the same map as a copy whenever the two directions are inverse
+				// of each other, which is the invariant every rule here maintains
+				other := fF
+				if sameField(want, fF) {
+					other = fR
+				}
+				for _, li := range findLoops(ps) {
+					it := c14IterOf(li)
+					if it == nil || it.kind != "map" || !isFieldLoad(it.over, other, recv) {
+						continue
+					}
+					good := len(li.Back) > 0
+					for _, q := range li.Back {
+						n := 0
+						for i := q.LoopAt[li.Hdr]; i < len(q.Events); i++ {
+							e := &q.Events[i]
+							if e.Kind == "mapupdate" && e.Addr.Key() == m.Key() {
+								if it.isElem(e.Key) && it.isKey(e.Val) {
+									n++
+								} else {
+									n = -99
+								}
+							}
+						}
+						conds := 0
+						for _, cd := range q.Conds {
+							if cd.NEv >= q.LoopAt[li.Hdr] {
+								conds++
+							}
+						}
+						if n != 1 || conds != 1 {
+							good = false
+						}
+					}
+					if good {
+						return true
+					}
+				}
 				return false
 			}
 			for _, p := range ps {
@@ -730,6 +769,34 @@ func c11LazyInit(c *Ctx, fF, fR *types.Var) {
 					}
 				}
 				return false
+			}
+			// Inductive reading: the rule shows that every method keeps "both nil or both there" provided it holds on
+			// entry (it does for the zero value, and only these methods write the fields). A path whose tests of the
+			// ENTRY state say that exactly one of the two maps is nil starts outside the invariant and does not occur.
+			{
+				firstStore := func(sts []*Event) int {
+					if len(sts) == 0 {
+						return 1 << 30
+					}
+					return sts[0].NCond
+				}
+				entry := map[string]string{} // field -> "nil" / "set", from tests made before that field was stored
+				for i, cd := range p.Conds {
+					r := cd.Rel()
+					if r.B == nil || !r.B.IsNil() || (r.Op != "==" && r.Op != "!=") {
+						continue
+					}
+					v := map[string]string{"==": "nil", "!=": "set"}[r.Op]
+					if isFieldLoad(r.A, fF, recv) && i < firstStore(stF) {
+						entry["F"] = v
+					}
+					if isFieldLoad(r.A, fR, recv) && i < firstStore(stR) {
+						entry["R"] = v
+					}
+				}
+				if entry["F"] != "" && entry["R"] != "" && entry["F"] != entry["R"] {
+					continue
+				}
 			}
 			if len(stF)+len(stR) > 0 {
 				n++
